@@ -27,6 +27,7 @@ import (
 	sdk "github.com/cosmos/cosmos-sdk/types"
 	sdktx "github.com/cosmos/cosmos-sdk/types/tx"
 	authtypes "github.com/cosmos/cosmos-sdk/x/auth/types"
+	vestingtypes "github.com/cosmos/cosmos-sdk/x/auth/vesting/types"
 	banktypes "github.com/cosmos/cosmos-sdk/x/bank/types"
 	distrtypes "github.com/cosmos/cosmos-sdk/x/distribution/types"
 	govtypes "github.com/cosmos/cosmos-sdk/x/gov/types"
@@ -59,7 +60,24 @@ type actor struct {
 	id   int
 	addr sdk.AccAddress
 	eth  *ecdsa.PrivateKey // non-nil for ethereum-key accounts (possible targets)
+	dual bool              // an ethereum-key account that also has an auth account with a secp256k1 key (possible source AND target)
+	vest *vestSpec         // non-nil for vesting accounts (they only send, receive and migrate)
 }
+
+// a vesting schedule, times in seconds relative to the world's clock, denominations as indexes into world.denoms
+type vestSpec struct {
+	kind        int // 0 delayed, 1 continuous, 2 periodic, 3 permanently locked
+	start, stop int64
+	orig        []sdkmath.Int   // per denom index (zero = none)
+	periods     []vestPeriod    // periodic only
+}
+
+type vestPeriod struct {
+	length int64
+	amt    []sdkmath.Int
+}
+
+type migRec struct{ from, to *actor }
 
 type world struct {
 	t      *testing.T
@@ -75,6 +93,7 @@ type world struct {
 	denoms []string
 	minDep sdkmath.Int
 	gone   map[int]bool // addresses already used in a migration
+	hist   []migRec     // accepted migrations, in order
 }
 
 func (w *world) time() time.Time { return w.t0.Add(time.Duration(w.now) * time.Second) }
@@ -180,6 +199,17 @@ func newWorld(t *testing.T, out *hx.Out, rng *rand.Rand) *world {
 		w.s.App.AccountKeeper.SetAccount(ctx, acc)
 		w.add(a)
 	}
+	// vesting accounts 7, 8, 9 (secp256k1 key: plausible sources) with schedules around the time scale of a sequence
+	for i := 0; i < 3; i++ {
+		secret := make([]byte, 32)
+		rng.Read(secret)
+		pk := secp256k1.GenPrivKeyFromSecret(secret)
+		a := &actor{id: 7 + i, addr: sdk.AccAddress(pk.PubKey().Address().Bytes())}
+		a.vest = w.newVestSpec(i)
+		base := authtypes.NewBaseAccount(a.addr, pk.PubKey(), w.s.App.AccountKeeper.NextAccountNumber(ctx), 0)
+		w.s.App.AccountKeeper.SetAccount(ctx, w.vestingAccount(base, a.vest))
+		w.add(a)
+	}
 	for i := 0; i < 6; i++ {
 		var k *ecdsa.PrivateKey
 		for k == nil {
@@ -188,6 +218,18 @@ func newWorld(t *testing.T, out *hx.Out, rng *rand.Rand) *world {
 			k, _ = crypto.ToECDSA(bz)
 		}
 		a := &actor{id: 11 + i, addr: sdk.AccAddress(crypto.PubkeyToAddress(k.PublicKey).Bytes()), eth: k}
+		if i >= 3 {
+			// dual: the address also carries an auth account with a secp256k1 key, so that it can stand on either side of
+			// a migration (old source as target, old target as source, a pair reversed)
+			secret := make([]byte, 32)
+			rng.Read(secret)
+			pk := secp256k1.GenPrivKeyFromSecret(secret)
+			a.dual = true
+			w.s.App.AccountKeeper.SetAccount(ctx, &ethermint.EthAccount{
+				BaseAccount: authtypes.NewBaseAccount(a.addr, pk.PubKey(), w.s.App.AccountKeeper.NextAccountNumber(ctx), 0),
+				CodeHash:    common.BytesToHash(crypto.Keccak256(nil)).String(),
+			})
+		}
 		w.add(a)
 	}
 	// the operator account of validator 0 gets a public key so that the validator check (not the account check) answers
@@ -202,6 +244,110 @@ func newWorld(t *testing.T, out *hx.Out, rng *rand.Rand) *world {
 		}
 	}
 	return w
+}
+
+// newVestSpec: schedule kinds and boundaries are drawn per world; amounts are whole tokens and the linear schedules
+// last 100/200/500/1000 s so that the SDK's decimal arithmetic is exact
+func (w *world) newVestSpec(i int) *vestSpec {
+	v := &vestSpec{}
+	switch i {
+	case 0:
+		v.kind = 1 + w.rng.Intn(2) // continuous | periodic
+	case 1:
+		v.kind = []int{0, 0, 0, 3}[w.rng.Intn(4)] // delayed | permanently locked
+	default:
+		v.kind = w.rng.Intn(4)
+	}
+	v.orig = []sdkmath.Int{w.amt(100 + w.rng.Int63n(800)), sdkmath.ZeroInt(), sdkmath.ZeroInt()}
+	if w.rng.Intn(2) == 0 {
+		v.orig[1] = w.amt(10 + w.rng.Int63n(90))
+	}
+	v.start = hx.Pick(w.rng, []int64{0, 0, 30})
+	switch v.kind {
+	case 0:
+		v.stop = hx.Pick(w.rng, []int64{40, 150, 400, 900})
+	case 1:
+		v.stop = v.start + hx.Pick(w.rng, []int64{100, 200, 500, 1000})
+	case 2:
+		n := 2 + w.rng.Intn(2)
+		left := append([]sdkmath.Int{}, v.orig...)
+		t := v.start
+		for k := 0; k < n; k++ {
+			p := vestPeriod{length: hx.Pick(w.rng, []int64{40, 100, 150}), amt: make([]sdkmath.Int, len(v.orig))}
+			for di := range v.orig {
+				if k == n-1 {
+					p.amt[di] = left[di]
+				} else {
+					p.amt[di] = left[di].QuoRaw(int64(n - k)).Quo(e18).Mul(e18)
+				}
+				left[di] = left[di].Sub(p.amt[di])
+			}
+			t += p.length
+			v.periods = append(v.periods, p)
+		}
+		v.stop = t
+	case 3:
+		v.stop = 0
+	}
+	return v
+}
+
+func (w *world) coinsOf(amts []sdkmath.Int) sdk.Coins {
+	var cs sdk.Coins
+	for di, a := range amts {
+		if a.IsPositive() {
+			cs = cs.Add(sdk.NewCoin(w.denoms[di], a))
+		}
+	}
+	return cs
+}
+
+func (w *world) vestingAccount(base *authtypes.BaseAccount, v *vestSpec) sdk.AccountI {
+	orig := w.coinsOf(v.orig)
+	unix := func(t int64) int64 { return w.t0.Unix() + t }
+	var acc sdk.AccountI
+	var err error
+	switch v.kind {
+	case 0:
+		acc, err = vestingtypes.NewDelayedVestingAccount(base, orig, unix(v.stop))
+	case 1:
+		acc, err = vestingtypes.NewContinuousVestingAccount(base, orig, unix(v.start), unix(v.stop))
+	case 2:
+		var ps vestingtypes.Periods
+		for _, p := range v.periods {
+			ps = append(ps, vestingtypes.Period{Length: p.length, Amount: w.coinsOf(p.amt)})
+		}
+		acc, err = vestingtypes.NewPeriodicVestingAccount(base, orig, unix(v.start), ps)
+	default:
+		acc, err = vestingtypes.NewPermanentLockedAccount(base, orig)
+	}
+	must(err)
+	return acc
+}
+
+func coinsLine(amts []sdkmath.Int) string {
+	var out []string
+	for di, a := range amts {
+		if a.IsPositive() {
+			out = append(out, fmt.Sprintf("%d:%s", di, a))
+		}
+	}
+	if len(out) == 0 {
+		return "-"
+	}
+	return strings.Join(out, ",")
+}
+
+func (v *vestSpec) line(id int) string {
+	per := "-"
+	if len(v.periods) > 0 {
+		var ps []string
+		for _, p := range v.periods {
+			ps = append(ps, fmt.Sprintf("%d/%s", p.length, coinsLine(p.amt)))
+		}
+		per = strings.Join(ps, ";")
+	}
+	return fmt.Sprintf("vest %d %d %d %d %s %s", id, v.kind, v.start, v.stop, coinsLine(v.orig), per)
 }
 
 func (w *world) add(a *actor) {
@@ -505,6 +651,29 @@ func (w *world) observe() string {
 		it = append(it, item{[]int64{int64(w.id(a))}, fmt.Sprintf("%d=%s/%d", w.id(a), dir, w.id(v[1:21]))})
 	}
 	parts = append(parts, show("M", it))
+	for _, x := range []struct {
+		tag string
+		pfx []byte
+	}{{"MF", migratetypes.KeyPrefixMigratedDirectionFrom}, {"MT", migratetypes.KeyPrefixMigratedDirectionTo}} {
+		it = nil
+		for _, kv := range hx.RawPrefix(ctx, app.GetKey(migratetypes.StoreKey), x.pfx) {
+			it = append(it, item{[]int64{int64(w.id(kv[0][1:]))}, fmt.Sprint(w.id(kv[0][1:]))})
+		}
+		parts = append(parts, show(x.tag, it))
+	}
+	it = nil
+	for _, a := range w.actors {
+		if a.vest == nil {
+			continue
+		}
+		locked := app.BankKeeper.LockedCoins(ctx, a.addr)
+		for di, d := range w.denoms {
+			if l := locked.AmountOf(d); l.IsPositive() {
+				it = append(it, item{[]int64{int64(a.id), int64(di)}, fmt.Sprintf("%d/%d=%s", a.id, di, l)})
+			}
+		}
+	}
+	parts = append(parts, show("L", it))
 	return strings.Join(parts, " ")
 }
 
@@ -607,18 +776,40 @@ func (w *world) amt(units int64) sdkmath.Int { return sdkmath.NewInt(units).Mul(
 
 // actors of ordinary ops: users, and ethereum-key accounts mostly once they own a migrated portfolio
 func (w *world) pickActor() *actor {
-	for i := 0; i < 8; i++ {
+	for i := 0; i < 40; i++ {
 		a := hx.Pick(w.rng, w.actors)
-		if a.eth == nil || w.gone[a.id] || w.rng.Intn(6) == 0 {
+		if a.vest != nil {
+			continue // vesting accounts only send, receive and migrate (the SDK's delegation tracking is not modelled)
+		}
+		if a.eth == nil || a.dual || w.gone[a.id] || w.rng.Intn(6) == 0 {
 			return a
 		}
 	}
-	return hx.Pick(w.rng, w.actors)
+	return w.byID[1]
+}
+
+func (w *world) vesting() []*actor {
+	var vs []*actor
+	for _, a := range w.actors {
+		if a.vest != nil {
+			vs = append(vs, a)
+		}
+	}
+	return vs
 }
 
 func (w *world) opSend() {
 	a, b := w.pickActor(), w.pickActor()
+	if w.rng.Intn(3) == 0 {
+		a = hx.Pick(w.rng, w.vesting()) // a vesting account spends (or tries to spend) around its spendable amount
+	}
+	if w.rng.Intn(6) == 0 {
+		b = hx.Pick(w.rng, w.vesting())
+	}
 	di := w.rng.Intn(len(w.denoms))
+	if a.vest != nil && w.rng.Intn(3) > 0 {
+		di = w.rng.Intn(2)
+	}
 	bal := w.s.App.BankKeeper.GetBalance(w.s.Ctx, a.addr, w.denoms[di]).Amount
 	var n sdkmath.Int
 	switch w.rng.Intn(5) {
@@ -628,6 +819,16 @@ func (w *world) opSend() {
 		n = bal.AddRaw(1) // one too many
 	default:
 		n = sdkmath.NewInt(1 + w.rng.Int63n(500)).Mul(e18)
+	}
+	if a.vest != nil {
+		sp := w.s.App.BankKeeper.SpendableCoins(w.s.Ctx, a.addr).AmountOf(w.denoms[di])
+		switch w.rng.Intn(4) {
+		case 0:
+			n = sp // exactly what is unlocked
+		case 1:
+			n = sp.AddRaw(1) // one locked unit
+		}
+		w.out.Count(fmt.Sprintf("send-vesting:kind=%d", a.vest.kind))
 	}
 	if !n.IsPositive() {
 		return
@@ -791,15 +992,227 @@ func (w *world) opVote() {
 	w.emit(fmt.Sprintf("vote %d %d", a.id, id), kind(res))
 }
 
+// opPeriods changes the deposit and voting period parameters; proposals already open keep their end times, so that
+// afterwards open proposals may end later (or much later) than one current period from now
+func (w *world) opPeriods() {
+	dp := hx.Pick(w.rng, []int64{100, 200, 200})
+	vp := hx.Pick(w.rng, []int64{150, 400, 400, 400, 15 * 24 * 3600, 40 * 24 * 3600})
+	w.setPeriods(dp, vp)
+}
+
+func (w *world) setPeriods(dp, vp int64) {
+	gp, err := w.s.App.GovKeeper.Keeper.Params.Get(w.s.Ctx)
+	must(err)
+	d1, d2 := time.Duration(dp)*time.Second, time.Duration(vp)*time.Second
+	gp.MaxDepositPeriod = &d1
+	gp.VotingPeriod = &d2
+	must(w.s.App.GovKeeper.Keeper.Params.Set(w.s.Ctx, gp))
+	w.out.Count(fmt.Sprintf("setperiods:vote=%d", vp))
+	w.emit(fmt.Sprintf("setperiods %d %d", dp, vp), "ok")
+}
+
 func (w *world) opBlock(dt int64) {
 	before := map[int]sdkmath.Int{}
 	for _, a := range w.actors {
 		before[a.id] = w.balFX(a.addr)
 	}
+	blockTime := w.now // time of the block whose end blocker runs now
 	w.endBlock(dt)
 	w.out.Count(fmt.Sprintf("block:dt=%d", dt))
 	w.emit(fmt.Sprintf("block %d", dt), "ok")
 	w.invariants("after block")
+	w.consistency("after block")
+	// maturation: the end blocker of a block at time T completes every unbonding / redelegation entry with completion <= T
+	// (an entry whose queue element names a delegator without that record is skipped silently and stays for ever)
+	sk := w.s.App.GetKey(stakingtypes.StoreKey)
+	cdc := w.s.App.AppCodec()
+	for _, kv := range hx.RawPrefix(w.s.Ctx, sk, stakingtypes.UnbondingDelegationKey) {
+		ubd := stakingtypes.MustUnmarshalUBD(cdc, kv[1])
+		for _, e := range ubd.Entries {
+			if w.secs(e.CompletionTime) <= blockTime {
+				w.out.Violate("stuck: an unbonding entry past its completion time is still in the store after the end blocker (its funds are never paid out)")
+			}
+		}
+	}
+	for _, kv := range hx.RawPrefix(w.s.Ctx, sk, stakingtypes.RedelegationKey) {
+		red := stakingtypes.MustUnmarshalRED(cdc, kv[1])
+		for _, e := range red.Entries {
+			if w.secs(e.CompletionTime) <= blockTime {
+				w.out.Violate("stuck: a redelegation entry past its completion time is still in the store after the end blocker")
+			}
+		}
+	}
+}
+
+// consistency of the staking store's records with their indexes, queue elements and unbonding ids (what the keepers
+// maintain and a migration has to carry over): evaluated on the raw store for every delegator
+func (w *world) consistency(when string) {
+	ctx := w.s.Ctx
+	sk := w.s.App.GetKey(stakingtypes.StoreKey)
+	st := ctx.KVStore(sk)
+	cdc := w.s.App.AppCodec()
+	bad := func(what string) { w.out.Violate("consistency " + when + ": " + what) }
+	type ent struct {
+		key  []byte
+		t    int64
+		id   uint64
+		kind string
+	}
+	var entries []ent
+	// delegations <-> 0x71
+	for _, kv := range hx.RawPrefix(ctx, sk, stakingtypes.DelegationKey) {
+		d, rest := readLP(kv[0][1:])
+		v, _ := readLP(rest)
+		if !st.Has(stakingtypes.GetDelegationsByValKey(v, d)) {
+			bad("a delegation record has no delegations-by-validator index entry (0x71)")
+		}
+	}
+	for _, kv := range hx.RawPrefix(ctx, sk, stakingtypes.DelegationByValIndexKey) {
+		v, d := readLP(kv[0][1:])
+		if !st.Has(stakingtypes.GetDelegationKey(d, v)) {
+			bad("a delegations-by-validator index entry (0x71) has no delegation record")
+		}
+	}
+	// unbonding delegations <-> 0x33
+	for _, kv := range hx.RawPrefix(ctx, sk, stakingtypes.UnbondingDelegationKey) {
+		d, rest := readLP(kv[0][1:])
+		v, _ := readLP(rest)
+		if !st.Has(stakingtypes.GetUBDByValIndexKey(d, v)) {
+			bad("an unbonding delegation has no by-validator index entry (0x33)")
+		}
+		ubd := stakingtypes.MustUnmarshalUBD(cdc, kv[1])
+		for _, e := range ubd.Entries {
+			entries = append(entries, ent{kv[0], w.secs(e.CompletionTime), e.UnbondingId, "unbonding"})
+			var ps stakingtypes.DVPairs
+			found := false
+			if bz := st.Get(stakingtypes.GetUnbondingDelegationTimeKey(e.CompletionTime)); bz != nil {
+				cdc.MustUnmarshal(bz, &ps)
+				for _, p := range ps.Pairs {
+					if p.DelegatorAddress == ubd.DelegatorAddress && p.ValidatorAddress == ubd.ValidatorAddress {
+						found = true
+					}
+				}
+			}
+			if !found {
+				bad("an unbonding entry is not announced in the queue slice (0x41) of its completion time under its delegator")
+			}
+		}
+	}
+	for _, kv := range hx.RawPrefix(ctx, sk, stakingtypes.UnbondingDelegationByValIndexKey) {
+		v, rest := readLP(kv[0][1:])
+		d, _ := readLP(rest)
+		if !st.Has(stakingtypes.GetUBDKey(d, v)) {
+			bad("an unbonding-delegation by-validator index entry (0x33) has no record")
+		}
+	}
+	// redelegations <-> 0x35, 0x36
+	for _, kv := range hx.RawPrefix(ctx, sk, stakingtypes.RedelegationKey) {
+		d, rest := readLP(kv[0][1:])
+		a, rest := readLP(rest)
+		b, _ := readLP(rest)
+		if !st.Has(stakingtypes.GetREDByValSrcIndexKey(d, a, b)) {
+			bad("a redelegation has no by-source-validator index entry (0x35)")
+		}
+		if !st.Has(stakingtypes.GetREDByValDstIndexKey(d, a, b)) {
+			bad("a redelegation has no by-destination-validator index entry (0x36)")
+		}
+		red := stakingtypes.MustUnmarshalRED(cdc, kv[1])
+		for _, e := range red.Entries {
+			entries = append(entries, ent{kv[0], w.secs(e.CompletionTime), e.UnbondingId, "redelegation"})
+			var ts stakingtypes.DVVTriplets
+			found := false
+			if bz := st.Get(stakingtypes.GetRedelegationTimeKey(e.CompletionTime)); bz != nil {
+				cdc.MustUnmarshal(bz, &ts)
+				for _, p := range ts.Triplets {
+					if p.DelegatorAddress == red.DelegatorAddress && p.ValidatorSrcAddress == red.ValidatorSrcAddress && p.ValidatorDstAddress == red.ValidatorDstAddress {
+						found = true
+					}
+				}
+			}
+			if !found {
+				bad("a redelegation entry is not announced in the queue slice (0x42) of its completion time under its delegator")
+			}
+		}
+	}
+	for _, x := range []struct {
+		name string
+		pfx  []byte
+		dst  bool
+	}{{"0x35", stakingtypes.RedelegationByValSrcIndexKey, false}, {"0x36", stakingtypes.RedelegationByValDstIndexKey, true}} {
+		for _, kv := range hx.RawPrefix(ctx, sk, x.pfx) {
+			v1, rest := readLP(kv[0][1:])
+			d, rest := readLP(rest)
+			v2, _ := readLP(rest)
+			src, dst := v1, v2
+			if x.dst {
+				src, dst = v2, v1
+			}
+			if !st.Has(stakingtypes.GetREDKey(d, src, dst)) {
+				bad("a redelegation by-validator index entry (" + x.name + ") has no record")
+			}
+		}
+	}
+	// unbonding ids (0x38) <-> entries
+	ids := map[uint64][]byte{}
+	for _, kv := range hx.RawPrefix(ctx, sk, stakingtypes.UnbondingIndexKey) {
+		ids[binary.BigEndian.Uint64(kv[0][1:])] = kv[1]
+	}
+	seen := map[uint64]bool{}
+	for _, e := range entries {
+		seen[e.id] = true
+		if v, ok := ids[e.id]; !ok || !bytes.Equal(v, e.key) {
+			bad("the unbonding-id index (0x38) of an " + e.kind + " entry does not point at the entry's record")
+		}
+	}
+	for id, v := range ids {
+		if !seen[id] && len(v) > 0 && (v[0] == stakingtypes.UnbondingDelegationKey[0] || v[0] == stakingtypes.RedelegationKey[0]) {
+			bad("an unbonding-id index entry (0x38) points at a record without an entry of that id")
+		}
+	}
+	// queue elements -> entries
+	for _, kv := range hx.RawPrefix(ctx, sk, stakingtypes.UnbondingQueueKey) {
+		ts, err := sdk.ParseTimeBytes(kv[0][1:])
+		must(err)
+		var ps stakingtypes.DVPairs
+		cdc.MustUnmarshal(kv[1], &ps)
+		for _, p := range ps.Pairs {
+			d, _ := sdk.AccAddressFromBech32(p.DelegatorAddress)
+			v, _ := sdk.ValAddressFromBech32(p.ValidatorAddress)
+			ok := false
+			if u, err := w.s.App.StakingKeeper.GetUnbondingDelegation(ctx, d, v); err == nil {
+				for _, e := range u.Entries {
+					if e.CompletionTime.Equal(ts) {
+						ok = true
+					}
+				}
+			}
+			if !ok {
+				bad("an unbonding queue element (0x41) names a delegator without an entry completing at that time")
+			}
+		}
+	}
+	for _, kv := range hx.RawPrefix(ctx, sk, stakingtypes.RedelegationQueueKey) {
+		ts, err := sdk.ParseTimeBytes(kv[0][1:])
+		must(err)
+		var ps stakingtypes.DVVTriplets
+		cdc.MustUnmarshal(kv[1], &ps)
+		for _, p := range ps.Triplets {
+			d, _ := sdk.AccAddressFromBech32(p.DelegatorAddress)
+			a, _ := sdk.ValAddressFromBech32(p.ValidatorSrcAddress)
+			b, _ := sdk.ValAddressFromBech32(p.ValidatorDstAddress)
+			ok := false
+			if r, err := w.s.App.StakingKeeper.GetRedelegation(ctx, d, a, b); err == nil {
+				for _, e := range r.Entries {
+					if e.CompletionTime.Equal(ts) {
+						ok = true
+					}
+				}
+			}
+			if !ok {
+				bad("a redelegation queue element (0x42) names a delegator without an entry completing at that time")
+			}
+		}
+	}
 }
 
 // ---------------------------------------------------------------------------------------------------------
@@ -866,6 +1279,8 @@ func errKind(res string) string {
 		return "err:to-staking"
 	case strings.Contains(res, "is proposer of") || strings.Contains(res, "have deposit of") || strings.Contains(res, "have vote of"):
 		return "err:gov"
+	case strings.Contains(res, "spendable balance") || strings.Contains(res, "locked amount exceeds account balance"):
+		return "err:exec" // the bank handler's single SendCoins of all balances met a locked coin
 	}
 	return "err:other(" + res + ")"
 }
@@ -1008,9 +1423,12 @@ func (w *world) opMigrate() {
 	switch r := w.rng.Intn(20); {
 	case r == 0:
 		fromID, fromAddr = 100, sdk.AccAddress(w.vals[0])
-	case r < 15: // a plausible source: a user not yet used in a migration
+	case r < 4: // a vesting account (locked, partly vested or fully vested, depending on the time)
+		from = hx.Pick(w.rng, w.vesting())
+		fromID, fromAddr = from.id, from.addr
+	case r < 15: // a plausible source: a user (or dual account) not yet used in a migration
 		from = hx.Pick(w.rng, w.actors)
-		for i := 0; i < 8 && (from.eth != nil || w.gone[from.id]); i++ {
+		for i := 0; i < 8 && ((from.eth != nil && !from.dual) || w.gone[from.id]); i++ {
 			from = hx.Pick(w.rng, w.actors)
 		}
 		fromID, fromAddr = from.id, from.addr
@@ -1026,7 +1444,7 @@ func (w *world) opMigrate() {
 	}
 	to := hx.Pick(w.rng, eths)
 	if w.rng.Intn(4) > 0 { // a plausible target: not yet used
-		for i := 0; i < 8 && w.gone[to.id]; i++ {
+		for i := 0; i < 8 && (w.gone[to.id] || to.id == fromID); i++ {
 			to = hx.Pick(w.rng, eths)
 		}
 	}
@@ -1060,7 +1478,7 @@ func (w *world) opMigrate() {
 	w.migrate(fromID, fromAddr, to, signer, order, sig, mode)
 }
 
-func (w *world) migrate(fromID int, fromAddr sdk.AccAddress, to *actor, signer int, order, sig, mode string) {
+func (w *world) migrate(fromID int, fromAddr sdk.AccAddress, to *actor, signer int, order, sig, mode string) string {
 	roles := w.openInvolvement(fromAddr, to.addr)
 	pf, pt := w.portfolio(fromAddr), w.portfolio(to.addr)
 	totals := w.totals()
@@ -1073,6 +1491,9 @@ func (w *world) migrate(fromID int, fromAddr sdk.AccAddress, to *actor, signer i
 	}
 	_, isVal := w.s.App.StakingKeeper.GetValidator(w.s.Ctx, sdk.ValAddress(fromAddr))
 	usedBefore := w.gone[fromID] || w.gone[to.id]
+	role := w.roleHistory(fromID, to.id)
+	recsBefore := w.recordSlots(fromAddr, to.addr)
+	lockedBefore := w.s.App.BankKeeper.LockedCoins(w.s.Ctx, fromAddr)
 
 	msg := &migratetypes.MsgMigrateAccount{From: fromAddr.String(), To: common.BytesToAddress(to.addr).String(), Signature: sig}
 	raw := w.exec(msg)
@@ -1085,6 +1506,12 @@ func (w *world) migrate(fromID int, fromAddr sdk.AccAddress, to *actor, signer i
 	if len(pf.dels) > 0 || len(pf.ubds) > 0 || len(pf.reds) > 0 {
 		w.out.Count(fmt.Sprintf("migrate-portfolio:dels=%d,ubds=%d,reds=%d=%s", len(pf.dels), len(pf.ubds), len(pf.reds), res))
 	}
+	if role != "" {
+		w.out.Count("migrate-chain:" + role + "=" + res)
+	}
+	if fa := w.byID[fromID]; fa != nil && fa.vest != nil {
+		w.out.Count(fmt.Sprintf("migrate-vesting:kind=%d,locked=%v=%s", fa.vest.kind, !lockedBefore.IsZero(), res))
+	}
 	w.emit(fmt.Sprintf("migrate %d %d %d %s", fromID, to.id, signer, order), res)
 	if strings.HasPrefix(res, "err:other") || res == "panic" {
 		w.out.Violate("migrate: unexpected failure kind " + res)
@@ -1093,7 +1520,20 @@ func (w *world) migrate(fromID int, fromAddr sdk.AccAddress, to *actor, signer i
 		if w.totals() != totals {
 			w.out.Violate("migrate: a refused migration changed totals")
 		}
-		return
+		// all or refuse: a refused migration moved nothing and did not use up the one-shot record of either address
+		if a := w.portfolio(fromAddr); a.bal.String()+a.stakingString() != pf.bal.String()+pf.stakingString() {
+			w.out.Violate("refused: a refused migration changed the source's portfolio")
+		}
+		if a := w.portfolio(to.addr); a.bal.String()+a.stakingString() != pt.bal.String()+pt.stakingString() {
+			w.out.Violate("refused: a refused migration changed the target's portfolio")
+		}
+		if w.recordSlots(fromAddr, to.addr) != recsBefore {
+			w.out.Violate("refused: a refused migration wrote a migration record or direction flag")
+		}
+		return res
+	}
+	if role != "" {
+		w.out.Violate("reuse: migration accepted although an address took part in an earlier migration (" + role + ")")
 	}
 	w.out.Nontrivial(fmt.Sprintf("migrate-ok:%d,%d,%d,%d", len(pf.bal), len(pf.dels), len(pf.ubds), len(pf.reds)))
 
@@ -1114,6 +1554,13 @@ func (w *world) migrate(fromID int, fromAddr sdk.AccAddress, to *actor, signer i
 		w.out.Violate(fmt.Sprintf("gov: migration accepted while %s is %s of a proposal still in its %s period (proposal %d)", r.who, r.role, r.status, r.id))
 	}
 	w.gone[fromID], w.gone[to.id] = true, true
+	if fa := w.byID[fromID]; fa != nil {
+		w.hist = append(w.hist, migRec{fa, to})
+	}
+	// both addresses are now marked, under the record key and under their direction flag
+	if got := w.recordSlots(fromAddr, to.addr); got != "rec-from,rec-to,dir-from," + "dir-to" {
+		w.out.Violate("record: after an accepted migration not every record slot of source and target is set (" + got + ")")
+	}
 
 	af, at := w.portfolio(fromAddr), w.portfolio(to.addr)
 	if !af.empty() {
@@ -1204,6 +1651,102 @@ func (w *world) migrate(fromID int, fromAddr sdk.AccAddress, to *actor, signer i
 		}
 	}
 	w.invariants("after migration")
+	w.consistency("after migration")
+	return res
+}
+
+// roleHistory names how the addresses of a requested migration took part in earlier accepted ones ("" = not at all)
+func (w *world) roleHistory(fromID, toID int) string {
+	var out []string
+	for _, m := range w.hist {
+		if m.from.id == fromID && m.to.id == toID {
+			out = append(out, "same-pair-again")
+			continue
+		}
+		if m.from.id == toID && m.to.id == fromID {
+			out = append(out, "pair-reversed")
+			continue
+		}
+		if m.from.id == fromID {
+			out = append(out, "old-source-as-source")
+		}
+		if m.to.id == fromID {
+			out = append(out, "old-target-as-source")
+		}
+		if m.from.id == toID {
+			out = append(out, "old-source-as-target")
+		}
+		if m.to.id == toID {
+			out = append(out, "old-target-as-target")
+		}
+	}
+	sort.Strings(out)
+	return strings.Join(uniq(out), "+")
+}
+
+// which of the four slots SetMigrateRecord writes exist for (from, to)
+func (w *world) recordSlots(from, to sdk.AccAddress) string {
+	st := w.s.Ctx.KVStore(w.s.App.GetKey(migratetypes.StoreKey))
+	var out []string
+	if st.Has(migratetypes.GetMigratedRecordKey(from)) {
+		out = append(out, "rec-from")
+	}
+	if st.Has(migratetypes.GetMigratedRecordKey(to)) {
+		out = append(out, "rec-to")
+	}
+	if st.Has(migratetypes.GetMigratedDirectionFrom(from)) {
+		out = append(out, "dir-from")
+	}
+	if st.Has(migratetypes.GetMigratedDirectionTo(common.BytesToAddress(to))) {
+		out = append(out, "dir-to")
+	}
+	return strings.Join(out, ",")
+}
+
+// opChain: a migration whose addresses change role with respect to an earlier accepted one — the old source as target, the
+// old target as source, the pair reversed, or the same source / target / pair again — correctly signed, so that nothing
+// but the already-migrated guards stands in its way
+func (w *world) opChain() {
+	if len(w.hist) == 0 {
+		w.opMigrate()
+		return
+	}
+	m := hx.Pick(w.rng, w.hist)
+	fresh := func(source bool) *actor {
+		for i := 0; i < 60; i++ {
+			a := hx.Pick(w.rng, w.actors)
+			if w.gone[a.id] || a.vest != nil || a.id == 6 {
+				continue
+			}
+			if source && (a.eth == nil || a.dual) {
+				return a
+			}
+			if !source && a.eth != nil {
+				return a
+			}
+		}
+		return nil
+	}
+	var from, to *actor
+	switch w.rng.Intn(6) {
+	case 0: // old source as target (needs the old source's ethereum key)
+		from, to = fresh(true), m.from
+	case 1: // old target as source (needs an auth account with secp256k1 key at the old target)
+		from, to = m.to, fresh(false)
+	case 2: // the pair reversed
+		from, to = m.to, m.from
+	case 3: // the same pair again
+		from, to = m.from, m.to
+	case 4: // the old source again, to a new target
+		from, to = m.from, fresh(false)
+	default: // a new source to the old target
+		from, to = fresh(true), m.to
+	}
+	if from == nil || to == nil || to.eth == nil || from == to {
+		w.opMigrate()
+		return
+	}
+	w.migrate(from.id, from.addr, to, to.id, "ft", w.sign(to.eth, from.addr, to.addr), "ok")
 }
 
 func diffHint(a, b portfolio) string {
@@ -1250,6 +1793,12 @@ func (w *world) reset() {
 		}
 	}
 	w.out.Emit("key 100", "ok")
+	for _, a := range w.actors {
+		if a.vest != nil {
+			w.out.Emit(a.vest.line(a.id), "ok")
+			w.out.Count(fmt.Sprintf("vesting-account:kind=%d", a.vest.kind))
+		}
+	}
 	for id, name := range map[int]string{idBonded: stakingtypes.BondedPoolName, idNotBond: stakingtypes.NotBondedPoolName, idGov: govtypes.ModuleName} {
 		amt := w.balFX(authtypes.NewModuleAddress(name))
 		if amt.IsPositive() {
@@ -1292,10 +1841,14 @@ func (w *world) randomOp() {
 		w.opDeposit()
 	case r < 76:
 		w.opVote()
-	case r < 88:
+	case r < 87:
 		w.opBlock(hx.Pick(w.rng, []int64{1, 1, 7, 50, 100, 100, 200, 299, 300}))
-	default:
+	case r < 88:
+		w.opPeriods()
+	case r < 96:
 		w.opMigrate()
+	default:
+		w.opChain()
 	}
 }
 
@@ -1303,7 +1856,7 @@ func TestC14(t *testing.T) {
 	seed := hx.Seed()
 	out := hx.NewOut()
 	defer out.Close("correspondence of the C14 store-level model with the real app (every op line compared) + property monitors on real state after every migration and block")
-	nSeq := hx.N(40, 400)
+	nSeq := hx.N(70, 400)
 	nOps := 70
 	if hx.Tier() == "thorough" {
 		nOps = 140
@@ -1312,8 +1865,29 @@ func TestC14(t *testing.T) {
 		rng := rand.New(rand.NewSource(seed*1000003 + int64(i)))
 		w := newWorld(t, out, rng)
 		w.reset()
-		if i == 0 {
+		switch {
+		case i == 0:
 			w.scripted()
+			continue
+		case i >= 1 && i <= 4: // the governance matrix: who x role x stage of the proposal's life
+			cases := govMatrix()
+			rand.New(rand.NewSource(seed)).Shuffle(len(cases), func(a, b int) { cases[a], cases[b] = cases[b], cases[a] })
+			for k := 0; k < 5; k++ {
+				c := cases[((i-1)*5+k)%len(cases)]
+				w.govScenario(c, w.byID[1+k], w.byID[11+k], w.byID[6])
+			}
+			w.opBlock(400)
+			w.opBlock(400)
+			w.opBlock(1)
+			continue
+		case i == 5:
+			w.portfolioScenario(false)
+			continue
+		case i == 6:
+			w.chainScenario()
+			continue
+		case i == 7:
+			w.portfolioScenario(true)
 			continue
 		}
 		for j := 0; j < nOps; j++ {
@@ -1325,6 +1899,216 @@ func TestC14(t *testing.T) {
 		w.opBlock(1)
 	}
 	_ = big.NewInt
+}
+
+type govCase struct{ who, role, phase string }
+
+// every way an address can be involved in a proposal, at every stage of the proposal's life: during the deposit / voting
+// period, at the very end time (the proposal is still queued: its end blocker has not run), and after it closed
+func govMatrix() []govCase {
+	var cs []govCase
+	for _, who := range []string{"source", "target"} {
+		cs = append(cs,
+			govCase{who, "proposer", "deposit"}, govCase{who, "depositor", "deposit"},
+			govCase{who, "proposer", "voting"}, govCase{who, "depositor", "voting"}, govCase{who, "voter", "voting"},
+			govCase{who, "proposer", "deposit-end"}, govCase{who, "voter", "voting-end"},
+			govCase{who, "depositor", "closed-unfunded"}, govCase{who, "voter", "closed-voted"})
+	}
+	// a voting period far longer than usual (the parameter was raised before the proposal entered it)
+	cs = append(cs, govCase{"source", "voter", "voting-long"}, govCase{"target", "depositor", "voting-long"})
+	return cs
+}
+
+func (w *world) textProposal(a *actor, dep sdkmath.Int) string {
+	content, _ := govv1beta1.ContentFromProposalType("title", "description", "Text")
+	legacy, err := govv1.NewLegacyContent(content, authtypes.NewModuleAddress(govtypes.ModuleName).String())
+	must(err)
+	anys, err := sdktx.SetMsgs([]sdk.Msg{legacy})
+	must(err)
+	var init sdk.Coins
+	if dep.IsPositive() {
+		init = sdk.NewCoins(w.coin(dep))
+	}
+	res := w.exec(&govv1.MsgSubmitProposal{Messages: anys, InitialDeposit: init, Proposer: a.addr.String(), Title: "title", Summary: "description"})
+	w.emit(fmt.Sprintf("submit %d %s", a.id, dep), kind(res))
+	return res
+}
+
+func (w *world) doDeposit(a *actor, id uint64, n sdkmath.Int) {
+	res := w.exec(&govv1.MsgDeposit{ProposalId: id, Depositor: a.addr.String(), Amount: sdk.NewCoins(w.coin(n))})
+	w.emit(fmt.Sprintf("deposit %d %d %s", a.id, id, n), kind(res))
+}
+
+func (w *world) doVote(a *actor, id uint64) {
+	res := w.exec(&govv1.MsgVote{ProposalId: id, Voter: a.addr.String(), Option: govv1.OptionYes})
+	w.emit(fmt.Sprintf("vote %d %d", a.id, id), kind(res))
+}
+
+// govScenario: exactly one involvement of the source or the target in one proposal (a third account supplies the rest),
+// the proposal brought to the requested stage, then a correctly signed migration of an otherwise unobjectionable pair
+func (w *world) govScenario(c govCase, src, tgt, helper *actor) {
+	x := src
+	if c.who == "target" {
+		x = tgt
+	}
+	id, err := w.s.App.GovKeeper.Keeper.ProposalID.Peek(w.s.Ctx)
+	must(err)
+	top := w.amt(2500) // the third account and the involved one can always afford the minimum deposit
+	for _, a := range []*actor{helper, x} {
+		w.s.MintToken(a.addr, w.coin(top))
+		w.emit(fmt.Sprintf("mint %d 0 %s", a.id, top), "ok")
+	}
+	voting := strings.HasPrefix(c.phase, "voting") || c.phase == "closed-voted"
+	zero := sdkmath.ZeroInt()
+	if c.phase == "voting-long" {
+		w.setPeriods(depSecs, hx.Pick(w.rng, []int64{15 * 24 * 3600, 40 * 24 * 3600, 400 * 24 * 3600}))
+	}
+	switch c.role {
+	case "proposer":
+		w.textProposal(x, zero) // proposer without any deposit of its own
+		if voting {
+			w.doDeposit(helper, id, w.minDep)
+		}
+	case "depositor":
+		switch {
+		case !voting:
+			w.textProposal(helper, zero)
+			w.doDeposit(x, id, w.amt(1+w.rng.Int63n(400)))
+		case w.rng.Intn(2) == 0:
+			w.textProposal(helper, zero)
+			w.doDeposit(x, id, w.minDep) // the deposit that starts the voting period
+		default:
+			w.textProposal(helper, w.minDep)
+			w.doDeposit(x, id, w.amt(1+w.rng.Int63n(400))) // a further deposit during the voting period
+		}
+	case "voter":
+		w.textProposal(helper, w.minDep)
+		w.doVote(x, id)
+	}
+	switch c.phase {
+	case "deposit", "voting":
+		w.opBlock(hx.Pick(w.rng, []int64{1, 7, 50, 150}))
+	case "voting-long":
+		w.setPeriods(depSecs, voteSecs)
+		w.opBlock(hx.Pick(w.rng, []int64{1, 7, 500}))
+	case "deposit-end":
+		w.opBlock(depSecs) // now == deposit end time: still queued
+	case "voting-end":
+		w.opBlock(voteSecs)
+	case "closed-unfunded":
+		w.opBlock(depSecs)
+		w.opBlock(1)
+	case "closed-voted":
+		w.opBlock(voteSecs)
+		w.opBlock(1)
+	}
+	res := w.migrate(src.id, src.addr, tgt, tgt.id, "ft", w.sign(tgt.eth, src.addr, tgt.addr), "ok")
+	w.out.Count("gov-scenario:" + c.who + "-" + c.role + "-" + c.phase + "=" + res)
+}
+
+// portfolioScenario: a source whose records share completion times in every way — two unbonding delegations (different
+// validators) and two redelegations started in one block, another delegator in the same slices, second entries of the
+// same records at a later time, pending rewards, a second denomination — migrated, then everything matures
+func (w *world) portfolioScenario(solo bool) {
+	u1, u2, e1 := w.byID[1], w.byID[2], w.byID[11]
+	del := func(a *actor, vi int, units int64) {
+		n := w.amt(units)
+		res, rw := w.withReward(a, func() sdkmath.Int { return n }, func() string {
+			return w.exec(&stakingtypes.MsgDelegate{DelegatorAddress: a.addr.String(), ValidatorAddress: w.valStr(vi), Amount: w.coin(n)})
+		})
+		w.emit(fmt.Sprintf("delegate %d %d %s %s", a.id, 100+vi, n, rw), kind(res))
+	}
+	und := func(a *actor, vi int, units int64) {
+		n := w.amt(units)
+		res, rw := w.withReward(a, func() sdkmath.Int { return sdkmath.ZeroInt() }, func() string {
+			return w.exec(&stakingtypes.MsgUndelegate{DelegatorAddress: a.addr.String(), ValidatorAddress: w.valStr(vi), Amount: w.coin(n)})
+		})
+		w.emit(fmt.Sprintf("undelegate %d %d %s %s", a.id, 100+vi, n, rw), kind(res))
+	}
+	red := func(a *actor, vi, vj int, units int64) {
+		n := w.amt(units)
+		res, rw := w.withReward(a, func() sdkmath.Int { return sdkmath.ZeroInt() }, func() string {
+			return w.exec(&stakingtypes.MsgBeginRedelegate{DelegatorAddress: a.addr.String(), ValidatorSrcAddress: w.valStr(vi), ValidatorDstAddress: w.valStr(vj), Amount: w.coin(n)})
+		})
+		w.emit(fmt.Sprintf("redelegate %d %d %d %s %s 0", a.id, 100+vi, 100+vj, n, rw), kind(res))
+	}
+	del(u1, 0, 300)
+	del(u1, 1, 200)
+	del(u1, 2, 100)
+	del(u2, 0, 100)
+	del(u2, 1, 100)
+	w.opBlock(5)
+	if solo {
+		// every entry of the source completes at a time of its own: no other record, entry or delegator shares its slice
+		steps := []func(){
+			func() { und(u1, 0, 10) }, func() { und(u1, 1, 10) }, func() { red(u1, 0, 2, 20) }, func() { und(u1, 0, 7) },
+			func() { red(u1, 1, 2, 15) }, func() { und(u1, 1, 2) }, func() { red(u1, 0, 2, 5) }, func() { und(u1, 2, 3) },
+			func() { und(u1, 0, 1) }, func() { red(u1, 1, 2, 4) },
+		}
+		for _, f := range steps {
+			f()
+			w.opBlock(int64(1 + w.rng.Intn(9)))
+		}
+		res := w.migrate(u1.id, u1.addr, e1, e1.id, "ft", w.sign(e1.eth, u1.addr, e1.addr), "ok")
+		w.out.Count("portfolio-scenario-solo=" + res)
+		und(e1, 0, 11)
+		for k := 0; k < 7; k++ {
+			w.opBlock(50)
+		}
+		und(e1, 1, 5)
+		w.opBlock(300)
+		w.opBlock(1)
+		return
+	}
+	und(u1, 0, 10) // one block: two unbonding delegations of the source, one of another delegator, two redelegations
+	und(u2, 0, 5)
+	und(u1, 1, 10)
+	red(u1, 0, 2, 20)
+	red(u2, 1, 2, 7)
+	red(u1, 1, 2, 15)
+	w.opBlock(int64(20 + w.rng.Intn(60)))
+	und(u1, 0, 7) // second entries of the same records, at a later time
+	und(u1, 2, 3)
+	red(u1, 0, 2, 5)
+	und(u2, 1, 4)
+	w.opBlock(int64(1 + w.rng.Intn(30)))
+	und(u1, 1, 2) // and a third completion time
+	w.opBlock(3)
+	res := w.migrate(u1.id, u1.addr, e1, e1.id, "ft", w.sign(e1.eth, u1.addr, e1.addr), "ok")
+	w.out.Count("portfolio-scenario=" + res)
+	// the target carries on where the source stopped
+	und(e1, 0, 11)
+	und(e1, 2, 30)
+	w.opBlock(100)
+	w.opBlock(100)
+	w.opBlock(100) // the first completion times pass here
+	w.opBlock(50)
+	und(e1, 1, 5)
+	w.opBlock(100)
+	w.opBlock(300)
+	w.opBlock(1)
+}
+
+// chainScenario: every way an address of an accepted migration can come back in another role
+func (w *world) chainScenario() {
+	mig := func(from, to *actor) {
+		w.migrate(from.id, from.addr, to, to.id, "ft", w.sign(to.eth, from.addr, to.addr), "ok")
+	}
+	u1, u2, u3 := w.byID[1], w.byID[2], w.byID[3]
+	e1, e2, d4, d5, d6 := w.byID[11], w.byID[12], w.byID[14], w.byID[15], w.byID[16]
+	mig(u1, d4) // user -> dual
+	mig(d5, d6) // dual -> dual
+	w.opBlock(1)
+	mig(u2, d5) // old source as target
+	mig(d4, e1) // old target as source
+	mig(d6, d5) // the pair reversed
+	w.opBlock(7)
+	mig(u1, e2) // old source again
+	mig(u3, d4) // old target again
+	mig(u1, d4) // the same pair again
+	mig(d5, e2) // old source (dual) again as source
+	mig(u3, e1) // untouched pair: accepted
+	w.opBlock(1)
 }
 
 // scripted: the directed history of DESIGN §6-F, run first in every run: a source that is proposer / depositor / voter of
